@@ -826,6 +826,12 @@ func Run(plan *Plan) *Result {
 	deadline := 20 * time.Second
 	if plan.Virtual {
 		deadline = 120 * time.Second // virtual seconds; far above every bounded-time clause
+		// a send that fails for ever under unlimited retries is ended by the backoff library after ~15 min
+		for _, sc := range plan.Output.Sends {
+			if sc.Fails < 0 && plan.Output.Retries < 0 {
+				deadline += 16 * time.Minute
+			}
+		}
 	}
 	step := 300 * time.Microsecond
 	if plan.Virtual {
